@@ -60,7 +60,14 @@ Inductive item :=
 | INormal (o : op)
 | ICrash (o : op) (k : Z)
 | IFault (o : op) (positions : list Z)
-| IConc (ops : list op) (sched : list Z).
+| IConc (ops : list op) (sched : list Z)
+| IReconf (c : config).   (* the operator restarts the mint with other limits / MPP support: the following items run under c *)
+
+Definition d_cfg (s : sexp) : option config :=
+  match s with
+  | L [A a; A b; A c; A m; A f] => Some (mkCfg a b c (zb m) f)
+  | _ => None
+  end.
 
 Definition d_item (s : sexp) : option item :=
   match s with
@@ -68,12 +75,7 @@ Definition d_item (s : sexp) : option item :=
   | L [A 1; o; A k] => do o' <- d_op o; Some (ICrash o' k)
   | L [A 2; o; L ps] => do o' <- d_op o; do l <- opt_map sZ ps; Some (IFault o' l)
   | L [A 3; L os; L sc] => do os' <- opt_map d_op os; do l <- opt_map sZ sc; Some (IConc os' l)
-  | _ => None
-  end.
-
-Definition d_cfg (s : sexp) : option config :=
-  match s with
-  | L [A a; A b; A c; A m; A f] => Some (mkCfg a b c (zb m) f)
+  | L [A 4; cf] => do c <- d_cfg cf; Some (IReconf c)
   | _ => None
   end.
 
@@ -140,17 +142,18 @@ Fixpoint run_items (cfg : config) (proj : Z) (w : world) (its : list item) : lis
   match its with
   | [] => []
   | it :: rest =>
-      let '(w', out) :=
+      let '(cfg', w', out) :=
         match it with
         | INormal o => let '(w1, r) := step cfg no_fault w o in
-                       (w1, L [e_res proj r; if failed_restart o r then empty_snapshot else snapshot w1])
-        | ICrash o k => let '(w1, r) := step_crash cfg (Z.to_nat k) w o in (w1, L [e_res proj r; snapshot w1])
-        | IFault o ps => let '(w1, r) := step cfg (oracle_of ps) w o in (w1, L [e_res proj r; snapshot w1])
+                       (cfg, w1, L [e_res proj r; if failed_restart o r then empty_snapshot else snapshot w1])
+        | ICrash o k => let '(w1, r) := step_crash cfg (Z.to_nat k) w o in (cfg, w1, L [e_res proj r; snapshot w1])
+        | IFault o ps => let '(w1, r) := step cfg (oracle_of ps) w o in (cfg, w1, L [e_res proj r; snapshot w1])
         | IConc os sc =>
             let '(w1, rs) := run_concurrent cfg w os (map Z.to_nat sc) in
-            (w1, L [L (map (e_res proj) rs); snapshot w1])
+            (cfg, w1, L [L (map (e_res proj) rs); snapshot w1])
+        | IReconf c => (c, w, L [L [A 5]; snapshot w])
         end in
-      out :: run_items cfg proj w' rest
+      out :: run_items cfg' proj w' rest
   end.
 
 (* case: (cfg proj (items...)) *)
